@@ -310,7 +310,7 @@ class Interp:
                 return self.bind(cattr, obj, obj.cls)
             if name == "__class__":
                 return obj.cls
-            if getattr(obj, "layout", None) is not None:
+            if getattr(obj, "layout", None) is not None or (getattr(obj, "spec_built", False) and name not in getattr(obj, "spec_known", ())):
                 # a specification-built valid instance (symlayout.Spec.new) carries exactly the attributes its layout view
                 # names; state the class keeps besides those is outside the specification: undecided, not an AttributeError
                 raise OutOfReach(f"attribute {name} of a specification-built {obj.cls.name}: state outside the layout view")
